@@ -2,6 +2,7 @@ import ChythonModel.Proofs.C10WF
 import ChythonModel.Proofs.C10Layout3
 import ChythonModel.Proofs.C10V0
 import ChythonModel.Proofs.C10Half
+import ChythonModel.Proofs.C10HalfTrunc
 /-!
 # C10 — binary pack format: lossless round trip, stable published layout
 
@@ -152,6 +153,24 @@ theorem f16_bits_roundtrip :
     (∀ e < 31, ∀ fh < 32, ∀ fl < 32, e * 1024 + fh * 32 + fl ≠ 0 →
       toF16 (ofF16 (32768 + e * 1024 + fh * 32 + fl)) = 32768 + e * 1024 + fh * 32 + fl) :=
   ⟨f16_pos, f16_neg⟩
+
+/-- **coordinates to half precision**: for EVERY finite double `±m·2^e` whose binary exponent `E` (`2^E ≤ |x| < 2^(E+1)`)
+    lies in the half range −25…15, packing and unpacking returns the sign of `x` and `⌊|x|/2^g⌋·2^g` with the binary16 grid
+    spacing `2^g` (`g = E − 10`, or `−24` for subnormals): truncation toward zero, error below one unit in the last place.
+    `scale2_floor` states that `scale2 m k` is `⌊m·2^k⌋`. -/
+theorem f16_truncation (x : Dy) (hm : x.m ≠ 0) (hlo : -25 ≤ halfExp x) (hhi : halfExp x < 16) :
+    ofF16 (toF16 x) =
+      ⟨x.neg, scale2 x.m (x.e - (max (halfExp x) (-14) - 10)), max (halfExp x) (-14) - 10⟩ :=
+  f16_truncation_aux x hm hlo hhi
+
+theorem scale2_floor (m : Nat) (k : Int) :
+    (0 ≤ k → scale2 m k = m * 2 ^ k.toNat) ∧
+    (k < 0 → scale2 m k * 2 ^ (-k).toNat ≤ m ∧ m < (scale2 m k + 1) * 2 ^ (-k).toNat) :=
+  scale2_spec m k
+
+/-- non-vacuity: 1/3 (`6004799503160661·2^−54`, E = −2) is stored as 0x3555 = 1365·2^−12 -/
+example : halfExp ⟨false, 6004799503160661, -54⟩ = -2 ∧ toF16 ⟨false, 6004799503160661, -54⟩ = 0x3555 ∧
+    ofF16 0x3555 = ⟨false, 1365, -12⟩ := by decide +kernel
 
 /-- ±0 and everything outside the half range (|x| ≥ 65536, |x| < 2⁻²⁵) is stored as 0 -/
 theorem f16_out_of_range (neg : Bool) (m : Nat) (e : Int)
